@@ -344,6 +344,47 @@ func rulePublication(c *core.Ctx) {
 				guard = decided && holds
 			}
 		}
+		if !guard {
+			// the same restriction as an early return: every path to the publication
+			// passes the success edge of "ref, isRef := obj.(Reference)" for the object
+			// Decode was given (a parameter), before any reference is followed
+			for _, v := range g.Vs {
+				as, isAs := v.AST.(*ast.AssignStmt)
+				if !isAs || len(as.Lhs) != 2 || len(as.Rhs) != 1 || as.Tok != token.DEFINE || g.InLoop(v) {
+					continue
+				}
+				ta, isTA := ast.Unparen(as.Rhs[0]).(*ast.TypeAssertExpr)
+				if !isTA || ta.Type == nil || !strings.HasSuffix(core.TypeString(info.TypeOf(ta.Type)), "Reference") {
+					continue
+				}
+				src, isVar := core.ObjOf(info, ta.X).(*types.Var)
+				if !isVar || paramObj(fn, src.Name()) != src {
+					continue
+				}
+				okObj := core.ObjOf(info, as.Lhs[1])
+				for _, bv := range g.BranchVertices() {
+					if bv.Cond.Expr == nil || !g.Dominates(v, bv) || g.InLoop(bv) {
+						continue
+					}
+					for _, l := range []core.EdgeLabel{core.EdgeTrue, core.EdgeFalse} {
+						for _, a := range bv.Implied(l) {
+							if id, isID := ast.Unparen(a.Expr).(*ast.Ident); isID && info.ObjectOf(id) == okObj && !a.Neg && a.Tag == nil {
+								// no assignment to the flag between its definition and this test
+								reassigned := false
+								for _, d := range defVertices(g, okObj) {
+									if d != v && g.PathExists(d, bv, nil) {
+										reassigned = true
+									}
+								}
+								if !reassigned && g.EdgeDominates(cs[0].V, core.EdgeRef{From: bv, Label: l}) {
+									guard = true
+								}
+							}
+						}
+					}
+				}
+			}
+		}
 		o.Require(guard, "publication is not restricted to objects reached through references")
 		// all references followed (the slice every followed reference is appended to) and the decoded value
 		appended := false
